@@ -73,7 +73,10 @@ def main():
                 keys = sorted({l.split("key=")[1].split()[0] for l in out.splitlines() if "key=" in l and l.strip().startswith("kind=")})
                 verdicts[prop] = {"exit": rc, "violations": len(viol), "keys": keys[:6], "wall_s": round(time.time() - t0, 1)}
             detected = any(v["exit"] == 1 and v["violations"] > 0 for v in verdicts.values())
-            results.append((name, "DETECTED" if detected else "MISSED", {"suite_passes": suite_ok, "checks": verdicts}))
+            verdict = "DETECTED" if detected else "MISSED"
+            if not detected and meta.get("out_of_scope"):
+                verdict = "OUT-OF-SCOPE"
+            results.append((name, verdict, {"suite_passes": suite_ok, "checks": verdicts, "out_of_scope": meta.get("out_of_scope")}))
         finally:
             sh(["git", "-C", "/repo", "worktree", "remove", "--force", wt])
             shutil.rmtree(wt, ignore_errors=True)
@@ -84,7 +87,7 @@ def main():
     missed = 0
     for name, verdict, info in results:
         print("%-44s %s %s" % (name, verdict, json.dumps(info)[:400]))
-        if verdict != "DETECTED":
+        if verdict not in ("DETECTED", "OUT-OF-SCOPE"):
             missed += 1
     print("seeded changes: %d, not detected: %d" % (len(results), missed))
     return 1 if missed else 0
